@@ -179,7 +179,27 @@ def install(prog):
         if not it.branch(ok): return mk_none()
         return mk_some(z3.fpToSBV(z3.RTZ(), x, z3.BitVecSort(dw)) if dsig else z3.fpToUBV(z3.RTZ(), x, z3.BitVecSort(dw)))
 
+    @M(r'<(i8|i16|i32|i64|isize|u8|u16|u32|u64|usize) as (?:num::|num_traits::)?Checked(Add|Sub|Mul)>::checked_\w+')
+    def _(it, m, a):
+        r = it.overflow_op(m.group(2), deref(a[0]), deref(a[1]), m.group(1))
+        if it.branch(r.f[1]): return mk_none()
+        return mk_some(r.f[0])
+
+    @M(r'<(i8|i16|i32|i64|isize|u8|u16|u32|u64|usize) as (?:num::|num_traits::)?Checked(Div|Rem)>::checked_\w+')
+    def _(it, m, a):
+        ty = m.group(1); w, sg = INT_TYPES[ty]
+        x, y = deref(a[0]), deref(a[1])
+        if it.branch(it.binop('Eq', y, 0, ty)): return mk_none()
+        if sg and it.branch(it.binop('Eq', x, -(1 << (w - 1)), ty)) and it.branch(it.binop('Eq', y, -1, ty)): return mk_none()
+        return mk_some(it.binop(m.group(2), x, y, ty))
+
     # ---- f64 -------------------------------------------------------------------------------------
+    @M(r'(?:std|core)::f64::<impl f64>::(powf|powi|exp|ln|sin|cos|tan|asin|acos|atan|atan2|log|log2|log10)')
+    def _(it, m, a):
+        # libm transcendental: an arbitrary double (the claim never depends on its value)
+        it.fresh_n += 1
+        return z3.FP('libm_%s_%d_%d' % (m.group(1), len(it.taken), it.fresh_n), z3.Float64())
+
     @M(r'(?:std|core)::f64::<impl f64>::(floor|ceil|trunc|round|abs|fract|sqrt|is_nan|is_finite|is_infinite|is_sign_negative|is_sign_positive)')
     def _(it, m, a):
         x = a[0]; k = m.group(1)
@@ -219,11 +239,11 @@ def install(prog):
         if k == 'sqrt': return z3.fpSqrt(z3.RNE(), x)
         raise Unsupported('f64::' + k)
 
-    @M(r'<f64 as PartialEq>::(eq|ne)')
+    @M(r'<&*f64 as PartialEq(?:<&*f64>)?>::(eq|ne)')
     def _(it, m, a):
         r = it.float_binop('Eq', deref(a[0]), deref(a[1]))
         if m.group(1) == 'eq': return r
         return (not r) if isinstance(r, bool) else z3.Not(r)
 
-    @M(r'<f64 as PartialOrd>::(lt|le|gt|ge)')
+    @M(r'<&*f64 as PartialOrd(?:<&*f64>)?>::(lt|le|gt|ge)')
     def _(it, m, a): return it.float_binop(m.group(1).capitalize(), deref(a[0]), deref(a[1]))
